@@ -59,6 +59,12 @@ CHECKS = {
 "C34": ("exploration", "deterministic simulation: seeded AddNodes/AddReferences/DeleteNodes/DeleteReferences histories with node ids planted just ahead of the server's id counter; result-vs-state oracle",
         "Oracle: Good AddNodes => node exists and the given parent has a forward reference of the given type to it; any Bad item leaves the state digest unchanged; server-assigned ids never equal an existing node id; a non-local parent is never accepted.",
         "State digest covers the harness universe (known, requested, returned and candidate ids).", "7/C34"),
+"C19": ("exploration", "deterministic simulation: seeded session/request/time-out/channel histories from raw clients (1-2 connections) against the real server tasks on virtual time; authorisation reference model + state digest",
+        "Oracle (one direction): a request whose token the model does not authorise (unknown, null, closed, unactivated, other connection, other channel, timed out) gets a ServiceFault and leaves the state digest unchanged; CloseSession invalidates the token.",
+        "Time-out boundary +-3 ms excluded; digest = variable value, added nodes, subscription counters.", "7/C19"),
+"C20": ("exploration", "deterministic simulation: generated endpoint/user configurations x seeded ActivateSession histories including malformed ciphertexts and replays after nonce rotation; configuration oracle",
+        "Oracle (one direction): ActivateSession Good => the configured condition for that token kind holds for the session's current nonce; a token encrypted for an earlier nonce is never accepted.",
+        "User-name and anonymous tokens over None and secured channels (RSA 2048); X.509 user tokens are not generated.", "7/C20"),
 }
 
 def main():
